@@ -1,6 +1,6 @@
 (* C18 - the theorems, assembled from the invariants, in the form stated in Prop_C18.v *)
 From Coq Require Import List Arith Bool Lia.
-From GoPdf.C18 Require Import Cache CacheLemmas CacheInv CacheExcl CacheOnce CacheCount CacheLive CacheTypes CachePair CacheSeq.
+From GoPdf.C18 Require Import Cache CacheLemmas CacheInv CacheExcl CacheOnce CacheCount CacheLive CacheTypes CacheRank CachePair CacheSeq CacheProv.
 Import ListNotations.
 
 Section Thm.
@@ -209,6 +209,27 @@ Proof.
   destruct I as [I1 [I2 I3]]. eapply no_deadlock_inv; eauto.
 Qed.
 
+(* the weakest natural condition: the exclusive-dependency relation is well-founded (CacheRank.v) *)
+Definition ranked (rk : ref -> ty -> nat) : Prop :=
+  forall r0 e t, ce r0 e -> Forall (op_rk rk (Some (rk r0 t))) (body e t).
+
+Theorem no_deadlock_ranked_thm : forall (rk : ref -> ty -> nat) progs sched s b,
+  wf_file -> wf_progs progs -> ranked rk ->
+  runS (init progs) sched = (s, b) ->
+  (exists th, In th (ths s) /\ status (sh s) th <> 0) ->
+  exists tid s', stepS s tid = Some s'.
+Proof.
+  intros rk progs sched s b Hf Hp Hrk Hrun Hun.
+  assert (R : reach progs s) by (eapply schedule_reach; eauto).
+  assert (I : all_inv s /\ rinv rk s).
+  { clear Hrun Hun. induction R.
+    - split; [eapply reach_all_inv; eauto; constructor|apply init_rinv].
+    - destruct IHR as [I1 I2]. split.
+      + eapply reach_all_inv; eauto. econstructor; eauto.
+      + destruct I1 as [J1 _]. eapply step_rinv; eauto. }
+  destruct I as [[I1 [I2 _]] I3]. eapply no_deadlock_rank_inv; eauto.
+Qed.
+
 Definition no_excl (o : op) : Prop := op_ok PdT PxF (CacheLive.PpD next) o.
 
 Theorem decode_only_never_wait_thm : forall progs sched s b th,
@@ -255,6 +276,36 @@ Proof.
   intros. destruct o as [v|x]; eauto.
   destruct (seq_error_thm progs sched s b) as [E _]; auto.
   apply E in H4. congruence.
+Qed.
+
+(* the full statement: exactly when an outcome differs from the run-alone outcome *)
+Theorem seq_equiv_thm : forall progs sched s b,
+  wf_file -> wf_progs progs ->
+  (forall e t, Forall xnp (body e t)) -> Forall (Forall xnp) progs ->
+  runS (init progs) sched = (s, b) ->
+  (forall tid c o, In (EDec tid c o) (log (sh s)) ->
+     (class_of o <> alone (cref c) (cpath c) (cty c) <->
+      (exists v, o = Ok v) /\ masked next fails maxdepth (log (sh s)) (cref c) (cpath c) (cty c))) /\
+  (forall tid r t o, In (EExc tid r t o) (log (sh s)) ->
+     (class_of o <> alone r [] t <->
+      (exists v, o = Ok v) /\ masked next fails maxdepth (log (sh s)) r [] t)).
+Proof.
+  intros progs sched s b Hf Hp Hbx Hpx Hrun.
+  assert (B : forall e t, Forall (op_ok PT PT PpD) (body e t)) by (intros; apply pair_direct_oks; auto).
+  assert (R : reach progs s) by (eapply schedule_reach; eauto).
+  assert (I : inv next PT PT PpD s /\ sq_inv next fails maxdepth s /\ prov_inv next fails s).
+  { clear Hrun. induction R.
+    - split; [|split; [apply init_sq_inv; auto|apply init_prov_inv]].
+      apply init_inv. eapply Forall_impl; [|exact Hp]. apply pair_direct_oks.
+    - destruct IHR as [I1 [I2 I3]]. split; [|split].
+      + eapply (step_inv next body fails isnil maxdepth PT PT PpD (fun _ _ _ H => H) B); eauto.
+      + eapply step_sq_inv; eauto.
+      + eapply step_prov_inv; eauto. }
+  destruct I as [[[Hcl [Hlg _]] _] [[Hl _] Hpv]]. split; intros.
+  - pose proof (Hlg _ H) as H1. pose proof (Hl _ H) as H2. simpl in H1, H2.
+    apply differs_iff; auto. intros x ->. exact H2.
+  - pose proof (Hlg _ H) as H1. pose proof (Hl _ H) as H2. simpl in H1, H2.
+    apply differs_iff; auto. intros x ->. exact H2.
 Qed.
 
 End Thm.
